@@ -229,6 +229,11 @@ func init() {
 								continue
 							}
 							for _, shape := range []string{"plain", "bad", "flush", "empty", "multi"} {
+								if start == "none" && stop == "after" && shape == "flush" {
+									// Flush blocks until a worker processes it; with no Start and Stop only after
+									// the producers returned the harness itself would wait for ever
+									continue
+								}
 								for _, ch := range []string{"buf", "unbuf"} {
 									ps = append(ps, c05p{ib, rows, start, stop, shape, ch, false})
 								}
